@@ -6,6 +6,7 @@
 mod alloc;
 mod comp;
 mod ctor;
+mod fault;
 mod gen;
 mod hlru;
 mod lfu;
@@ -135,6 +136,151 @@ fn slice_lru(a: &Args, t: &mut Trace) {
             },
             &tag,
         );
+    }
+}
+
+
+/// the history a generator produces on a live object (the generators look at the last snapshot)
+fn gen_history(mk: &dyn Fn() -> Box<dyn Subject>, len: usize, next: &mut dyn FnMut(&Ints) -> Ints) -> Option<Vec<Ints>> {
+    ledger_reset();
+    let mut ops = Vec::new();
+    let r = std::panic::catch_unwind(std::panic::AssertUnwindSafe(|| {
+        let mut subj = mk();
+        let mut snap = subj.snapshot();
+        for _ in 0..len {
+            let op = next(&snap);
+            let _ = subj.apply(&op);
+            let op = subj.take_op_rewrite().unwrap_or(op);
+            snap = subj.snapshot();
+            ops.push(op);
+        }
+    }));
+    runner::PANIC_DEPTH.store(0, std::sync::atomic::Ordering::Relaxed);
+    subj::AUDIT_BAD.store(false, std::sync::atomic::Ordering::Relaxed);
+    r.ok().map(|_| ops)
+}
+
+/// C18: panic injection into every call the library makes into user code (Hash, Eq, Clone, Drop, BuildHasher,
+/// eviction callback).  `--n` histories of `--len` operations; for `--corpus <k>`-many (default 4) operations
+/// of each history, and for its final drop, every call index is injected in turn; half of the runs get a
+/// second injection later in the history.
+fn slice_fault(a: &Args, t: &mut Trace) {
+    types::DROP_IS_USER_CALL.store(true, std::sync::atomic::Ordering::Relaxed);
+    let targets: usize = a.corpus.as_ref().and_then(|s| s.parse().ok()).unwrap_or(4);
+    for i in 0..a.n {
+        let (mine, stream, hforce) = case_plan(a, i);
+        if !mine {
+            continue;
+        }
+        let kind = (i % 5) as u32;
+        let mut r = rng_for(a.seed, stream + 7_000_000);
+        let hmode = hforce.unwrap_or(r.below(5));
+        let len = r.range(a.len / 2 + 1, a.len) as usize;
+        let mut vg = gen::ValGen(1000);
+        // configuration and generator per cache type
+        let (cfg, meta, mk, mut next): (Vec<i128>, String, Box<dyn Fn() -> Box<dyn Subject>>, Box<dyn FnMut(&mut prng::Rng, &mut gen::ValGen, &Ints) -> Ints>) = match kind {
+            0 => {
+                let cap = r.range(1, 4);
+                let ctor = if r.chance(1, 2) { 3 } else { 1 };
+                let mut kg = gen::KeyGen::new(cap + 3);
+                (
+                    vec![cap as i128, (ctor >= 2) as i128],
+                    format!("ctor={} hasher={}", ctor, hmode),
+                    Box::new(move || mk_lru(cap as usize, ctor, hmode)),
+                    Box::new(move |r, vg, snap| loop {
+                        let op = gen::lru_op(r, &mut kg, vg, snap, cap);
+                        if op[0] != 24 {
+                            return op;
+                        }
+                    }),
+                )
+            }
+            1 => {
+                let pc = r.range(1, 3);
+                let fc = r.range(1, 3);
+                let mut kg = gen::KeyGen::new(pc + fc + 3);
+                (
+                    vec![pc as i128, fc as i128],
+                    format!("hasher={}", hmode),
+                    Box::new(move || mk_slru(pc as usize, fc as usize, hmode)),
+                    Box::new(move |r, vg, snap| gen::slru_op(r, &mut kg, vg, snap)),
+                )
+            }
+            2 => {
+                let size = r.range(1, 6) as usize;
+                let mut rri = r.below(RATIOS.len() as u64) as usize;
+                let mut gri = r.below(RATIOS.len() as u64) as usize;
+                let mut tries = 0;
+                while twoq_quotas(size, RATIOS[rri], RATIOS[gri]).1 == 0 {
+                    gri = (gri + 1) % RATIOS.len();
+                    tries += 1;
+                    if tries > RATIOS.len() {
+                        rri = 0;
+                        gri = 3;
+                    }
+                }
+                let (rs, es) = twoq_quotas(size, RATIOS[rri], RATIOS[gri]);
+                let mut kg = gen::KeyGen::new(size as u64 + es as u64 + 3);
+                (
+                    vec![size as i128, rs as i128, es as i128],
+                    format!("hasher={} rri={} gri={}", hmode, rri, gri),
+                    Box::new(move || mk_twoq(size, RATIOS[rri], RATIOS[gri], hmode)),
+                    Box::new(move |r, vg, snap| gen::twoq_op(r, &mut kg, vg, snap)),
+                )
+            }
+            3 => {
+                let size = r.range(1, 5) as usize;
+                let mut kg = gen::KeyGen::new(2 * size as u64 + 3);
+                (
+                    vec![size as i128],
+                    format!("hasher={}", hmode),
+                    Box::new(move || mk_arc(size, hmode)),
+                    Box::new(move |r, vg, snap| gen::arc_op(r, &mut kg, vg, snap)),
+                )
+            }
+            _ => {
+                let (w, prot, prob) = (r.range(1, 3), r.range(1, 3), r.range(1, 3));
+                let samples = *r.pick(&[1u64, 2, 3, 5, 8, 16, 64]);
+                let fpi = r.below(FPS.len() as u64) as usize;
+                let khmode = r.below(3);
+                let mut kg = gen::KeyGen::new(w + prot + prob + 4);
+                (
+                    vec![],
+                    format!("w={} prot={} prob={} samples={} fpi={} kh={} hasher={}", w, prot, prob, samples, fpi, khmode, hmode),
+                    Box::new(move || Box::new(lfu::mk_wtiny(w as usize, prot as usize, prob as usize, samples as usize, FPS[fpi], khmode, hmode)) as Box<dyn Subject>),
+                    Box::new(move |r, vg, snap| gen::wtiny_op(r, &mut kg, vg, snap)),
+                )
+            }
+        };
+        let ops = match gen_history(&*mk, len, &mut |snap| next(&mut r, &mut vg, snap)) {
+            Some(o) => o,
+            None => continue,
+        };
+        let counts = match fault::dry_run(&*mk, &ops) {
+            Some(c) => c,
+            None => continue,
+        };
+        // the operations to inject into: those with the most user calls first would bias; take a random subset
+        let mut js: Vec<usize> = (0..ops.len()).filter(|j| counts[*j] > 0).collect();
+        while js.len() > targets {
+            let k = r.below(js.len() as u64) as usize;
+            js.remove(k);
+        }
+        js.push(ops.len());
+        let mut n = 0;
+        for j in js {
+            for call in 0..counts[j] {
+                let mut faults = vec![(j, call)];
+                if j + 1 < ops.len() && r.chance(1, 2) {
+                    let j2 = r.range(j as u64 + 1, ops.len() as u64) as usize;
+                    faults.push((j2, r.below(counts[j2].max(1) + 2)));
+                }
+                let id = format!("fault-s{}-i{}-{}", a.seed, i, n);
+                n += 1;
+                t.count(&format!("kind{}", kind));
+                fault::run_fault_case(t, &id, kind, &cfg, &meta, &*mk, &ops, &faults);
+            }
+        }
     }
 }
 
@@ -473,6 +619,7 @@ fn slice_replay(a: &Args, t: &mut Trace) {
         cfg: Ints,
         meta: String,
         ops: Vec<Ints>,
+        drop_fault: Option<u64>,
     }
     for f in files {
         let text = std::fs::read_to_string(&f).unwrap();
@@ -487,6 +634,7 @@ fn slice_replay(a: &Args, t: &mut Trace) {
                     cfg: w[2..].iter().map(|x| x.parse().unwrap()).collect(),
                     meta: String::new(),
                     ops: Vec::new(),
+                    drop_fault: None,
                 });
             } else if let Some(rest) = line.strip_prefix("X ") {
                 if let Some(c) = cases.last_mut() {
@@ -495,6 +643,12 @@ fn slice_replay(a: &Args, t: &mut Trace) {
             } else if let Some(rest) = line.strip_prefix("O ") {
                 let opstr = rest.split('|').next().unwrap();
                 let op: Ints = opstr.split_whitespace().map(|x| x.parse().unwrap()).collect();
+                if op.first() == Some(&97) && op.len() == 3 && op[2] == 99 {
+                    if let Some(c) = cases.last_mut() {
+                        c.drop_fault = Some(op[1] as u64);
+                    }
+                    continue;
+                }
                 if op.first() == Some(&99) || op.first() == Some(&98) {
                     continue;
                 }
@@ -514,6 +668,29 @@ fn slice_replay(a: &Args, t: &mut Trace) {
                         meta.insert(k.to_string(), v);
                     }
                 }
+            }
+            if c.kind >= 100 {
+                // a fault case: operations written `97 <call index> <op...>` carry an injection
+                types::DROP_IS_USER_CALL.store(true, std::sync::atomic::Ordering::Relaxed);
+                let mut ops: Vec<Ints> = Vec::new();
+                let mut faults: Vec<(usize, u64)> = Vec::new();
+                for op in &c.ops {
+                    if op.first() == Some(&97) && op.len() >= 3 {
+                        if op[2] == 99 {
+                            continue;
+                        }
+                        faults.push((ops.len(), op[1] as u64));
+                        ops.push(op[2..].to_vec());
+                    } else {
+                        ops.push(op.clone());
+                    }
+                }
+                if let Some(f) = c.drop_fault {
+                    faults.push((ops.len(), f));
+                }
+                fault::run_fault_case(t, &c.id, c.kind - 100, &c.cfg, &c.meta, &|| mk_subject(c.kind - 100, &c.cfg, &meta), &ops, &faults);
+                types::DROP_IS_USER_CALL.store(false, std::sync::atomic::Ordering::Relaxed);
+                continue;
             }
             let ops = c.ops.clone();
             run_case(
@@ -626,6 +803,7 @@ fn main() {
         "ctor" => slice_ctor(&a, &mut t),
         "lru_bfs" => slice_lru_bfs(&a, &mut t),
         "hlru" => slice_hlru(&a, &mut t),
+        "fault" => slice_fault(&a, &mut t),
         s => {
             eprintln!("unknown slice {}", s);
             std::process::exit(2);
